@@ -226,7 +226,7 @@ H("C09", "rc4", "c09_prga_step", timeout=600,
 H("C09", "rc4", "c09_apply_is_steps", timeout=3600, tiers=["thorough"],
   encodes=["rc4::Rc4::apply_keystream"], inputs="state, i, j any; n in {0,1}; data any",
   asserts="an n-byte call equals n applications of the step function XORed onto the data; empty call is the identity", bounds="n in {0,1} from every state; unwind 258", assumes=[])
-H("C09", "rc4", "c09_apply_is_steps_2", timeout=5400, tiers=["thorough"],
+H("C09", "rc4", "c09_apply_is_steps_2", timeout=1800,
   encodes=["rc4::Rc4::apply_keystream"], inputs="state, i, j any; n = 2; data any",
   asserts="a 2-byte call equals 2 applications of the step function", bounds="n = 2 from every state; unwind 258", assumes=[])
 H("C09", "rc4", "c09_apply_is_steps_4", timeout=1800,
